@@ -149,6 +149,8 @@ where
         // Each file gets its own assertion report. The environment is shared
         // between all the files of one invocation.
         self.environment.borrow_mut().assert_results = AssertCollector::new();
+        // The one-output-per-file lock only guards a single evaluation of this file.
+        self.environment.borrow_mut().reset_out_lock_for_path(&file);
         let ptr = self.environment.borrow_mut().get_ops_for_path(&file)?;
         let eval_result = self.eval_ops(ptr, Some(file.clone()));
         match eval_result {
